@@ -46,7 +46,7 @@ variable {W H C R MR : Nat}
     the target is handed out only after the source's SB loop finished and its decrement was performed -/
 theorem safe_cEdge (ok : InitOK W H C R MR) (MC : Nat) {st : ASt}
     (h0 : Inv0 (initSeg W H C R MC MR) st) {p t : Nat}
-    (he : cEdge W H (min C W) (min (min R H) MR) p t) (ht : 1 ≤ aget st.ph t) : 3 ≤ aget st.ph p := by
+    (he : cEdge W H (min C W) (effR W H R MR) p t) (ht : 1 ≤ aget st.ph t) : 3 ≤ aget st.ph p := by
   have hw := initSeg_wf ok MC
   obtain ⟨eR, eB, _, _, _, _, _, _, hrows⟩ := initSeg_wf_static ok MC
   rcases he with ⟨rfl, r, hr, a, b⟩ | ⟨rfl, r, hr1, a, b, c⟩
@@ -62,7 +62,7 @@ theorem safe_cEdge (ok : InitOK W H C R MR) (MC : Nat) {st : ASt}
 
 theorem safe_transGen (ok : InitOK W H C R MR) (MC : Nat) {st : ASt}
     (h0 : Inv0 (initSeg W H C R MC MR) st) {p t : Nat}
-    (he : Relation.TransGen (cEdge W H (min C W) (min (min R H) MR)) p t) (ht : 1 ≤ aget st.ph t) :
+    (he : Relation.TransGen (cEdge W H (min C W) (effR W H R MR)) p t) (ht : 1 ≤ aget st.ph t) :
     3 ≤ aget st.ph p := by
   induction he using Relation.TransGen.head_induction_on with
   | single h => exact safe_cEdge ok MC h0 h ht
